@@ -48,6 +48,8 @@ func (c txnCall) String() string {
 		return fmt.Sprintf("Set(%s, v%d)", c.key, c.tag)
 	case "SetHandler":
 		return fmt.Sprintf("SetHandler(%s, v%d, %s)", c.key, c.tag, c.handler)
+	case "Del":
+		return "Set(" + c.key + ", nil)"
 	}
 	return c.kind + "()"
 }
@@ -59,7 +61,13 @@ func genTxnCalls(t *T, n int, tagBase int64, endings bool) []txnCall {
 	var calls []txnCall
 	for i := 0; i < n; i++ {
 		call := txnCall{key: txnKeys[c.Draw(len(txnKeys))], tag: tagBase + int64(i) + 1}
-		switch c.Weighted(4, 4, 2, 2, 1) {
+		switch c.Weighted(4, 4, 2, 2, 1, 2) {
+		case 5:
+			// a deleting Set (nil record); the concurrent mode judges by tags and keeps to Gets instead
+			call.kind = "Get"
+			if endings {
+				call.kind = "Del"
+			}
 		case 0:
 			call.kind = "Set"
 		case 1:
@@ -119,6 +127,12 @@ func (m *txnModel) apply(c txnCall, injected bool) {
 			w.err = "injected"
 		} else {
 			m.store[c.key] = c.tag
+		}
+	case "Del":
+		if injected {
+			w.err = "injected"
+		} else {
+			delete(m.store, c.key)
 		}
 	}
 	if c.handler == "fail" && w.err == "" {
@@ -182,6 +196,8 @@ func runTxnCalls(txn keyvalue.Transaction, calls []txnCall, between func()) []ke
 			r := tagRecord(c.tag)
 			d, _ := r.Data()
 			ids = append(ids, txn.SetHandler(c.key, r, d, handlerFor(c.handler)))
+		case "Del":
+			ids = append(ids, txn.Set(c.key, nil, nil))
 		case "Abort":
 			_ = txn.Abort()
 			ids = append(ids, -1)
@@ -259,9 +275,10 @@ func c18Sequential(t *T) {
 	inBubble(t, 4000, func(s *Sched) {
 		s.Go("client", func() {
 			model := map[string]int64{}
+			var prev keyvalue.Transaction
 			for x := 0; x < ntx; x++ {
 				calls := genTxnCalls(t, c.Draw(8), int64(100*(x+1)), true)
-				ending := []string{"Commit", "Abort", "Abort+Commit", "Commit+Abort", "Abort+Abort"}[c.Weighted(6, 2, 1, 1, 1)]
+				ending := []string{"Commit", "Abort", "Abort+Commit", "Commit+Abort", "Abort+Abort", "Commit(cancelled ctx)", "Commit(cancelled ctx)+Abort"}[c.Weighted(6, 2, 1, 1, 1, 1, 1)]
 				var plan *faultPlan
 				if sim != nil && c.Chance(1, 3) {
 					plan = &faultPlan{t: t, at: c.Draw(6), armed: true}
@@ -281,6 +298,21 @@ func c18Sequential(t *T) {
 				// run the calls one by one so the model knows whether the injected fault fired in each
 				var ids []keyvalue.OpID
 				for _, call := range calls {
+					if prev != nil && c.Chance(1, 5) {
+						// a straggling call on the transaction that ended before this one was opened: no effect on
+						// the store, none on this transaction's results
+						st := txnCall{kind: []string{"Set", "Get", "Del"}[c.Draw(3)], key: txnKeys[c.Draw(len(txnKeys))], tag: int64(9000 + x)}
+						armed := plan != nil && plan.armed
+						if armed {
+							plan.armed = false // the injected fault is meant for this transaction's own calls
+						}
+						runTxnCalls(prev, []txnCall{st}, nil)
+						if armed {
+							plan.armed = true
+						}
+						names = append(names, "[straggler on the previous transaction: "+st.String()+"]")
+						t.Stat("c18:straggler-call")
+					}
 					firedBefore := plan != nil && plan.fired > 0
 					ids = append(ids, runTxnCalls(txn, []txnCall{call}, nil)...)
 					injected := plan != nil && plan.fired > 0 && !firedBefore
@@ -333,6 +365,21 @@ func c18Sequential(t *T) {
 				case "Abort+Abort":
 					_ = txn.Abort()
 					_ = txn.Abort()
+				case "Commit(cancelled ctx)", "Commit(cancelled ctx)+Abort":
+					// whatever Commit makes of a context that is already cancelled (results or an error), the
+					// transaction is over and the store has to be usable afterwards
+					cctx, cancel := context.WithCancel(context.Background())
+					cancel()
+					_, _ = txn.Commit(cctx)
+					if ending == "Commit(cancelled ctx)+Abort" {
+						_ = txn.Abort()
+					}
+				}
+				// stragglers only on a transaction that is over for certain: whether a Commit that failed because of
+				// its context ends a (lock-free) serial transaction is the implementation's choice
+				prev = txn
+				if ending == "Commit(cancelled ctx)" {
+					prev = nil
 				}
 				if sim != nil {
 					sim.plan = nil
